@@ -431,6 +431,19 @@ pub(crate) fn c15_finalize(k: usize, threads_form: bool) {
     if n > 1 {
       e::fail("finalize/ran-twice", || "finalizer invoked a second time".to_string());
     }
+    // the subscription is over when the finalizer runs: nothing may be delivered from now on,
+    // not even an item the source emits from inside the callback (unsubscribe path only: on the
+    // terminal paths the subscriber has already seen its terminal)
+    probe.forbid("finalize/delivery-after-finalizer");
+    if !term_seen {
+      if threads_form {
+        if let Some(mut h) = cat::handle_t_nth(0, 0) {
+          h.next(Val::c(99));
+        }
+      } else if let Some(mut h) = cat::handle_nth(0, 0) {
+        h.next(Val::c(99));
+      }
+    }
   };
   let mut unsub: Option<Box<dyn FnOnce()>>;
   let mut feeder: Box<dyn FnMut(&Ev)>;
